@@ -131,3 +131,22 @@ Theorem C10_faulty_history_complete : forall ops rs st, NoDup (attached ops) -> 
   wire_of k st = concat (map encode_frames (assigned k ops rs)).
 Proof. exact rr_history_complete. Qed.
 Print Assumptions C10_faulty_history_complete.
+
+(** * The two models of the send loop agree where both apply: over connections that accept every write, [RrSend.send]
+      does what [World.send_rr] does (same outcome, same bytes on the same wire, same rotation and tables afterwards) *)
+From ZV Require Import Proofs.DirSendProofs Proofs.SendRefinement.
+Theorem C10_faulty_refines_world : forall w st m,
+  World.w_type w = PUSH \/ World.w_type w = DEALER -> rr_agrees w st -> lenN (encode_frames m) < 2 ^ 63 ->
+  let '(b, w') := World.send_rr (S (length (World.w_rr w))) w m in
+  let '(r, st') := RrSend.send st m in
+  rr_agrees w' st' /\
+  match r with
+  | ROk k => b = World.BSendOk /\
+             wire_w k w' = wire_w k w ++ encode_frames m /\ wire_of k st' = wire_of k st ++ encode_frames m /\
+             (forall j, j <> k -> wire_w j w' = wire_w j w /\ wire_of j st' = wire_of j st)
+  | RNoPeer => b = World.BSendErr EReturnToSender (Some m) /\
+               (forall j, wire_w j w' = wire_w j w /\ wire_of j st' = wire_of j st)
+  | _ => False
+  end.
+Proof. exact rr_refines_world. Qed.
+Print Assumptions C10_faulty_refines_world.
